@@ -12,7 +12,7 @@ namespace Nebula.Cert
 open Nebula.Net
 
 inductive InvErr where
-  | publicKey | noNetworks | invalidNetwork | zeroAddress | fourInSix | v1IPv6 | duplicateNetwork
+  | name | emptyGroup | publicKey | noNetworks | invalidNetwork | zeroAddress | fourInSix | v1IPv6 | duplicateNetwork
   | invalidUnsafe | v1IPv6Unsafe | unsafeNeedsV6 | unsafeNeedsV4 | duplicateUnsafe
   deriving DecidableEq, Repr
 
@@ -86,7 +86,9 @@ def v2Unsafe (isCA hasV4 hasV6 : Bool) : List Prefix → Option InvErr
 
 /-- `certificateV2.validate`: the certificate with both lists sorted, or the first error. -/
 def validateV2 (c : Cert) : Except InvErr Cert :=
-  if c.publicKey.length == 0 then .error .publicKey
+  if c.name.length == 0 || c.name.length > Gen.cert_MaxNameLength then .error .name
+  else if c.groups.any (·.isEmpty) then .error .emptyGroup
+  else if c.publicKey.length == 0 then .error .publicKey
   else if !c.isCA && c.networks.length == 0 then .error .noNetworks
   else match v2Networks c.networks with
     | some e => .error e
